@@ -126,12 +126,58 @@ def reverse_keywords(src: str) -> Tuple[str, int]:
     return ast.unparse(tree), k
 
 
+_MIRROR = {ast.Lt: ast.Gt, ast.Gt: ast.Lt, ast.LtE: ast.GtE, ast.GtE: ast.LtE, ast.Eq: ast.Eq, ast.NotEq: ast.NotEq}
+
+
+def flip_comparisons(src: str) -> Tuple[str, int]:
+    """`a < b` -> `b > a`, `a == b` -> `b == a` for every single-operator comparison whose operands are side-effect free
+    (names, attributes, constants, subscripts, arithmetic, len()/min()/max() of those): same truth value, other spelling."""
+    tree = ast.parse(src)
+    k = 0
+
+    def pure(e: ast.AST) -> bool:
+        for x in ast.walk(e):
+            if isinstance(x, ast.Call) and not (isinstance(x.func, ast.Name) and x.func.id in ("len", "min", "max", "int", "float", "abs", "sum", "type", "tuple")):
+                return False
+            if isinstance(x, (ast.Await, ast.Yield, ast.YieldFrom, ast.NamedExpr, ast.Lambda)):
+                return False
+        return True
+
+    for n in ast.walk(tree):
+        if isinstance(n, ast.Compare) and len(n.ops) == 1 and type(n.ops[0]) in _MIRROR and pure(n.left) and pure(n.comparators[0]):
+            # keep `x == None`-style and string/constant comparisons as they are when the constant is on the right and the op is symmetric? no: flip all
+            n.left, n.comparators[0] = n.comparators[0], n.left
+            n.ops[0] = _MIRROR[type(n.ops[0])]()
+            k += 1
+    return ast.unparse(tree), k
+
+
+def swap_branches(src: str) -> Tuple[str, int]:
+    """`if c: A else: B` -> `if not c: B else: A` (plain two-way ifs only, no elif chains) and `x if c else y` -> `y if not c else x`."""
+    tree = ast.parse(src)
+    k = 0
+    for n in ast.walk(tree):
+        if isinstance(n, ast.If) and n.orelse and not (len(n.orelse) == 1 and isinstance(n.orelse[0], ast.If)):
+            n.test = ast.UnaryOp(op=ast.Not(), operand=n.test)
+            n.body, n.orelse = n.orelse, n.body
+            k += 1
+        elif isinstance(n, ast.IfExp):
+            n.test = ast.UnaryOp(op=ast.Not(), operand=n.test)
+            n.body, n.orelse = n.orelse, n.body
+            k += 1
+    ast.fix_missing_locations(tree)
+    return ast.unparse(tree), k
+
+
 def run_alpha(props: List[str], root: str, evidence: bool = False) -> int:
     worst = 0
     for opaque in (False, True):
         worst = max(worst, _run_alpha_mode(props, root, opaque))
     worst = max(worst, _run_alpha_mode(props, root, False, transform=reformat_only, mode="re-printed from the syntax tree (no comments, other line numbers)"))
     worst = max(worst, _run_alpha_mode(props, root, False, transform=reverse_keywords, mode="keyword arguments of every call in reverse order"))
+    worst = max(worst, _run_alpha_mode(props, root, False, transform=flip_comparisons, mode="comparisons written the other way round"))
+    if os.environ.get("ALPHA_SWAP"):
+        worst = max(worst, _run_alpha_mode(props, root, False, transform=swap_branches, mode="two-way branches swapped under the negated condition"))
     if evidence:
         import json
         from .report import VERIF
@@ -141,7 +187,7 @@ def run_alpha(props: List[str], root: str, evidence: bool = False) -> int:
                 with open(evp) as fh:
                     ev = json.load(fh)
                 ev["coverage"].setdefault("self_validation", {})["alpha_renaming"] = {
-                    "modes": ["suffix _rn", "opaque zq<i>", "re-printed source", "reversed keyword arguments"], "verdict": "same verdict and obligation count on the renamed tree" if worst == 0 else "FAILED",
+                    "modes": ["suffix _rn", "opaque zq<i>", "re-printed source", "reversed keyword arguments", "flipped comparisons"], "verdict": "same verdict and obligation count on the renamed tree" if worst == 0 else "FAILED",
                     "what": "every local variable of every function of the package renamed consistently in memory; a changed verdict is a checker bug"}
                 with open(evp, "w") as fh:
                     json.dump(ev, fh, indent=1)
